@@ -88,11 +88,14 @@ class QueueRig:
             r = bytearray(rec[:self.real_len(j, k)])
             if j in self.corrupted and self.corrupted[j] < len(r):
                 off = self.corrupted[j]
-                r[off] = ord('x') if r[off] != ord('x') else ord('y')
+                # the damaged byte: an ASCII letter, a byte that is never valid UTF-8, or a lead byte without its continuation
+                b = (ord('x'), 0xFF, 0xC3)[self.corrupt_kind % 3]
+                r[off] = b if r[off] != b else ord('y')
             out += bytes(r)
         return out
 
     abs_written: list = []
+    corrupt_kind = 0
 
 
 def replay_queue_path(case):
@@ -100,6 +103,7 @@ def replay_queue_path(case):
     from .dotgraph import split_action
     rig = QueueRig(case['np'], case['rl'], case['readers'], case['payloads'])
     rig.abs_written = []
+    rig.corrupt_kind = case.get('corrupt_kind', 0)
     step = 0
     try:
         for label, st in case['path']:
